@@ -9,7 +9,9 @@ RULE = ("requirements rendered from structures name x extras list x (PEP 440 cla
         "swap incl. IGNORECASE confusables, non-ASCII word characters, Unicode whitespace, newline); every string 'a'+t, |t| <= 4/5 over a "
         "class-representative alphabet; related pairs (PEP 503 name spellings, clause order/spelling, extras order) for ==/hash; "
         "non-trivial = accepted by Requirement; distinct by input text")
-ASSUMPTIONS = ["str.lower() on non-ASCII characters (canonicalize_name of an extra value inside a marker) is outside the model: inputs with such a character after the first ';' are dropped",
+ASSUMPTIONS = ["r.eqh compares 'hash(a) == hash(b)' with equality of the model's hash key: two unequal requirements with colliding 61-bit "
+               "hashes would be a false alarm (probability ~2^-61 per pair)",
+               "str.lower() on non-ASCII characters (canonicalize_name of an extra value inside a marker) is outside the model: inputs with such a character after the first ';' are dropped",
                "marker literals containing a backslash are outside the modelled domain (ast.literal_eval is an oracle there); generated "
                "inputs containing a backslash are dropped",
                "hash(): only 'equal implies equal hash' is observed",
@@ -34,12 +36,15 @@ def rendered(rng, R, canonical=False):
 
 
 def no_d7(rng, R):
-    """a layout outside the D7 class: whitespace between a '===' clause and a following comma"""
-    for _ in range(50):
-        s, lay, mt = rendered(rng, R)
-        if not G.d7_class(R, lay): return s, lay, mt
-    R["clauses"] = [c for c in R["clauses"] if c[0] != "==="]
-    return rendered(rng, R)
+    """a layout outside the D7 class: whitespace between every '===' clause and a following comma (the structure is never changed)"""
+    s, lay, mt = rendered(rng, R)
+    if G.d7_class(R, lay):
+        cl = R["clauses"]
+        for i in range(len(cl) - 1):
+            if cl[i][0] == "===" and lay["cw"][i][1] == "":
+                lay["cw"][i] = (lay["cw"][i][0], rng.choice([" ", "\t", "  "]))
+        s = G.render(R, lay, mt)
+    return s, lay, mt
 
 
 def eq_pair(rng):
@@ -57,7 +62,18 @@ def eq_pair(rng):
     B["paren"] = rng.random() < 0.3
     exp = "T"
     k = rng.random()
-    if k < 0.5:
+    raw = [i for i, c in enumerate(cl) if G.raw_key(c)]
+    if raw and rng.random() < 0.5:
+        # '===' and prefix-match clauses are compared by their raw text: '===1.0' / '===1.0.0', '===X' / '===x', '==1.*' / '==1.0.*' differ
+        # (all copies of the chosen clause are respelled, so B's set of raw keys differs from A's unless the new text is there already)
+        i = rng.choice(raw)
+        old = (cl[i][0], cl[i][2])
+        new = G.raw_text_variant(rng, cl[i])
+        B["clauses"] = cl = [new if (c[0], c[2]) == old else c for c in cl]
+        ka = {(c[0], c[2]) for c in A["clauses"] if G.raw_key(c)}
+        kb = {(c[0], c[2]) for c in cl if G.raw_key(c)}
+        exp = "T" if ka == kb else "F"
+    elif k < 0.5:
         pass
     elif k < 0.6:
         B["name"] += "x"; exp = "F"
@@ -125,7 +141,7 @@ def streams(rng, tier):
     # the D7 class: a '===' clause immediately followed by a comma
     for _ in range(300 if q else 6000):
         R = G.rand_req(rng, url_p=0, marker_p=0.2)
-        n = rng.choice([2, 2, 3])
+        n = rng.choice([2, 2, 3, 4])
         R["clauses"] = [G.rand_clause(rng, arb_p=0) for _ in range(n)]
         i = rng.randrange(n - 1)
         R["clauses"][i] = ("===", G.ws(rng), rng.choice(["foo", "1.0", "z", "1.0+x", "A.B"]))
@@ -143,11 +159,13 @@ def streams(rng, tier):
         if outside_model(a) or outside_model(b): continue
         out.append(Case("law-eq", "law.r.eq", [a, b, exp], kind="law"))
         out.append(Case("eq-pairs", "r.eq", [a, b]))
+        out.append(Case("eq-hash", "r.eqh", [a, b]))
         if rng.random() < 0.2 and pool:
             out.append(Case("law-triple", "law.r.triple", [a, b, rng.choice(pool)], kind="law"))
     for _ in range(600 if q else 10000):
         a, b = rng.choice(pool), rng.choice(pool)
         out.append(Case("eq-pairs", "r.eq", [a, b]))
+        out.append(Case("eq-hash", "r.eqh", [a, b]))
     # a marker directly after a URL
     for _ in range(200 if q else 4000):
         import random
